@@ -673,6 +673,16 @@ def mk_call(fn, args=(), kwargs=()):
         ca, cb = a.const(), b.const()
         if ca is not None and cb is not None and cb != 0:
             return Term.num(ca % cb)
+    if fn == 'array' and len(args) == 1 and not kwargs:
+        xa = args[0].single_atom()
+        if xa is not None and (xa.kind == 'seq' or (xa.kind == 'call' and xa.args[0] in (
+                'zeros', 'ones', 'empty', 'full', 'array', 'copy', 'astype', 'reshape', 'concatenate'))):
+            return args[0]          # np.array(ndarray) has the same value
+    if fn == 'astype' and len(args) == 1 and len(kwargs) == 1 and kwargs[0][0] == 'dtype':
+        xa = args[0].single_atom()
+        if xa is not None and xa.kind == 'call' and xa.args[0] in ('zeros', 'ones', 'full', 'empty', 'astype'):
+            if dict(xa.args[2]).get('dtype') is not None and dict(xa.args[2])['dtype'].key == kwargs[0][1].key:
+                return args[0]      # already of that dtype
     if fn == 'float' and len(args) == 1 and not kwargs and _numeric_like(args[0]) and \
             not any(a.kind == 'sub' for a in args[0].atoms()):
         return args[0]
@@ -850,6 +860,9 @@ def rename_loops(t):
             for x in a.args:
                 if isinstance(x, str) and re.match(r'^[LCT]\d', x):
                     ids.add(x)
+                elif isinstance(x, str):
+                    for m in re.findall(r"'([LCT]\d[\d:]*)'", x):
+                        ids.add(m)
     if not ids:
         return t
 
@@ -860,7 +873,13 @@ def rename_loops(t):
 
     def fn(a):
         if a.kind in ('after', 'loopvar', 'idx', 'elem', 'key', 'exc', 'partial'):
-            new = tuple(order.get(x, x) if isinstance(x, str) else x for x in a.args)
+            def ren(x):
+                if not isinstance(x, str):
+                    return x
+                if x in order:
+                    return order[x]
+                return re.sub(r"'([LCT]\d[\d:]*)'", lambda m: "'" + order.get(m.group(1), m.group(1)) + "'", x)
+            new = tuple(ren(x) for x in a.args)
             if new != a.args:
                 return Term.of(Atom(a.kind, *new))
         return None
